@@ -14,7 +14,7 @@ CORPUS = [
      'iters': [{'incoming': [{'sched': [dict(uid=0, ranks=1, cpr=1, gpr=0, lfs=8, mem=0, rpn=0, colo=None, excl=False, prio=0, env=None, app=None),
                                         dict(uid=1, ranks=1, cpr=1, gpr=0, lfs=8, mem=0, rpn=0, colo=None, excl=False, prio=0, env=None, app=None)]}],
                 'marks': [], 'envs': [], 'unsched': []},
-               {'incoming': [], 'marks': [], 'envs': [], 'unsched': [0]},
+               {'incoming': [], 'marks': [], 'envs': [], 'unsched': [[0]]},
                {'incoming': [], 'marks': [], 'envs': [], 'unsched': []}]},
     # F2 (fixed): two ranks asking 0.625 GPU each piled up on GPU 0; blocked GPU raised TypeError
     {'cfg': {'cpn': 4, 'gpn': 2, 'lfs': 0, 'mem': 0, 'scattered': True},
@@ -22,7 +22,7 @@ CORPUS = [
                {'index': 1, 'cores': [0, 0, 0, 0], 'gpus': [0, 0], 'lfs': 0, 'mem': 0}],
      'iters': [{'incoming': [{'sched': [dict(uid=0, ranks=2, cpr=1, gpr=10, lfs=0, mem=0, rpn=0, colo=None, excl=False, prio=0, env=None, app=None)]}],
                 'marks': [], 'envs': [], 'unsched': []},
-               {'incoming': [], 'marks': [], 'envs': [], 'unsched': [0]}]},
+               {'incoming': [], 'marks': [], 'envs': [], 'unsched': [[0]]}]},
     # F4 (fixed): ranks <= 0 reported FAILED and then scheduled again
     {'cfg': {'cpn': 2, 'gpn': 0, 'lfs': 0, 'mem': 0, 'scattered': True},
      'nodes': [{'index': 0, 'cores': [0, 0], 'gpus': [], 'lfs': 0, 'mem': 0}],
@@ -38,8 +38,8 @@ APP_WITNESS = {   # F3 (recorded): an application-placed task is not marked busy
                                             app=[{'node': 0, 'cores': [0], 'gpus': [], 'lfs': 0, 'mem': 0}]),
                                        dict(uid=1, ranks=1, cpr=1, gpr=0, lfs=0, mem=0, rpn=0, colo=None, excl=False, prio=0, env=None, app=None)]}],
                'marks': [], 'envs': [], 'unsched': []},
-              {'incoming': [], 'marks': [], 'envs': [], 'unsched': [0]},
-              {'incoming': [], 'marks': [], 'envs': [], 'unsched': [1]}]}
+              {'incoming': [], 'marks': [], 'envs': [], 'unsched': [[0]]},
+              {'incoming': [], 'marks': [], 'envs': [], 'unsched': [[1]]}]}
 
 
 def run(ctx, prop):
@@ -50,6 +50,9 @@ def run(ctx, prop):
     for i in range(n):
         sc = schedlib.gen_script(rng, app_slots=(i % 6 == 5))
         scripts.append(schedlib.fill_releases(rp, sc))
+    for i in range(ctx.n(2, 40)):
+        # large pilots: more than 512 releases reach the scheduler within one drain of the unschedule queue
+        scripts.append(schedlib.fill_releases(rp, schedlib.gen_big_script(rng)))
     ops, impl = [], []
     dist = {'scripts': 0, 'iterations': 0, 'started': 0, 'failed': 0, 'canceled': 0, 'waited': 0, 'released': 0, 'crash': 0, 'with_app_slots': 0}
     for sc in scripts:
@@ -63,7 +66,7 @@ def run(ctx, prop):
         dist['started']  += sum(1 for e in ev if e[1] == 'AGENT_EXECUTING_PENDING')
         dist['failed']   += sum(1 for e in ev if e[1] == 'FAILED')
         dist['canceled'] += sum(1 for e in ev if e[1] == 'CANCELED')
-        dist['released'] += sum(len(it['unsched']) for it in sc['iters'])
+        dist['released'] += sum(len(m) for it in sc['iters'] for m in it['unsched'])
         dist['waited']   += sum(1 for o in out if any(w[1] for w in o['state']['waitpool']))
         if crash: dist['crash'] += 1
         if any(r.get('app') for it in sc['iters'] for m in it['incoming'] for r in m.get('sched', [])): dist['with_app_slots'] += 1
